@@ -113,6 +113,30 @@ inductive Op where
   | ifEmpty (v : Nat) | else_ | endIf
   | cfiBase (d c : Nat)               -- `char *d = (char *) c->base_addr`
   | lenTrimTo (d s n : Nat)           -- `size_t d = ShroudLenTrim(s, n)`
+  | mkVector (d s s2 n : Nat)         -- `std::vector<T> d(s, s2 + n)`
+  | newVector (d : Nat)               -- `std::vector<T> *d = new std::vector<T>`
+  | newVectorFrom (d s s2 n : Nat)    -- `std::vector<T> *d = new std::vector<T>(s, s2 + n)`
+  | ctxCxxVar (c v : Nat)             -- `c->cxx.addr = v`
+  | ctxIdtor (c : Nat)
+  | ctxBaseVec (c v v2 : Nat)         -- `c->addr.base = v->empty() ? NULL : &v2->front()`
+  | ctxType (c : Nat)
+  | ctxElemLen (c : Nat)              -- `sizeof(cxx_T)` / `sizeof(cxx_type)`
+  | ctxSizeVec (c v : Nat)            -- `c->size = v->size()`
+  | ctxRank1 (c : Nat)
+  | ctxShape0 (c c2 : Nat)            -- `c->shape[0] = c2->size`
+  | ctxCxxPtr (c : Nat)               -- `c->cxx.addr = cxx_nonconst_ptr`
+  | ctxBasePtr (c v : Nat)            -- `c->addr.base = v`
+  | ctxRankShape (c : Nat)            -- `c->rank = rank; c->shape[i] = dimension i`
+  | ctxSizeExpr (c : Nat)             -- `c->size = product of the dimensions`
+  | copyArrayF (c f f2 : Nat)         -- `call copy_array(c, f, size(f2))`  (ShroudCopyArray)
+  | allocCtxSize (f c : Nat)          -- `allocate(f(c%size))`
+  | deallocIf (f f2 : Nat)            -- `if (allocated(f)) deallocate(f2)`
+  | allocShape (f : Nat)              -- `allocate(f(dimension))`
+  | cfPointerCtx (c f : Nat)          -- `call c_f_pointer(c%base_addr, f, c%shape(1:rank))`
+  | cfPointerRes (p r : Nat)          -- `call c_f_pointer(p, r [, ctx%shape(1:rank)])`
+  | declPtr (d : Nat)                 -- `T *d;`
+  | strArrayAlloc (d s n l : Nat)     -- `char **d = ShroudStrArrayAlloc(s, n, l)`
+  | strArrayFree (v n : Nat)
   | opaque (code : Nat)               -- not modelled
   deriving Repr, DecidableEq
 
@@ -135,7 +159,53 @@ def Op.ofRaw : Nat × List Nat → Op
   | (23, []) => .endIf
   | (24, [d, c]) => .cfiBase d c
   | (25, [d, s, n]) => .lenTrimTo d s n
+  | (50, [d, s, s2, n]) => .mkVector d s s2 n
+  | (51, [d]) => .newVector d
+  | (52, [d, s, s2, n]) => .newVectorFrom d s s2 n
+  | (53, [c, v]) => .ctxCxxVar c v
+  | (54, [c]) => .ctxIdtor c
+  | (55, [c, v, v2]) => .ctxBaseVec c v v2
+  | (56, [c]) => .ctxType c
+  | (57, [c]) => .ctxElemLen c
+  | (58, [c, v]) => .ctxSizeVec c v
+  | (59, [c]) => .ctxRank1 c
+  | (60, [c, c2]) => .ctxShape0 c c2
+  | (61, [c]) => .ctxCxxPtr c
+  | (62, [c, v]) => .ctxBasePtr c v
+  | (63, [c]) => .ctxElemLen c
+  | (64, [c]) => .ctxRankShape c
+  | (65, [c]) => .ctxSizeExpr c
+  | (66, [d]) => .declPtr d
+  | (70, [c, f, f2]) => .copyArrayF c f f2
+  | (71, [f, c]) => .allocCtxSize f c
+  | (72, [f, f2]) => .deallocIf f f2
+  | (73, [f]) => .allocShape f
+  | (74, [f]) => .allocShape f
+  | (75, [c, f]) => .cfPointerCtx c f
+  | (76, [p, r]) => .cfPointerRes p r
+  | (80, [d, s, n, l]) => .strArrayAlloc d s n l
+  | (81, [v, n]) => .strArrayFree v n
   | (c, _) => .opaque c
+
+/-- the array context struct (`<lib>_SHROUD_array`) as far as the wrappers fill and read it -/
+structure Ctx where
+  /-- `cxx.addr`: the heap `std::vector` the capsule owns (its elements), released by ShroudCopyArray -/
+  owner : Option (List Int)
+  /-- `cxx.addr` set from `cxx_nonconst_ptr` (memory the library keeps) -/
+  ownerPtr : Bool
+  idtor : Bool
+  /-- `addr.base`: NULL, or the elements found there -/
+  base : Option (List Int)
+  /-- the address `addr.base` holds (0 for vector storage) -/
+  addr : Nat
+  typ : Bool
+  elemLen : Bool
+  size : Nat
+  rank : Nat
+  shape : List Nat
+  deriving Repr, DecidableEq
+
+def Ctx.empty : Ctx := ⟨none, false, false, none, 0, false, false, 0, 0, []⟩
 
 inductive Val where
   | int (i : Int)        -- integers; reals as opaque ids
@@ -144,6 +214,11 @@ inductive Val where
   | str (s : List Nat)   -- std::string
   | arr (a : List Int)   -- native array storage; extent = length
   | obj (a : Nat)        -- object reference (shadow `addr`)
+  | vec (l : List Int)   -- std::vector<T>
+  | ctx (c : Ctx)        -- array context struct
+  | carr (n len : Nat) (b : Buf)  -- Fortran `character(len=len) :: x(n)`: n*len contiguous bytes
+  | ptrs (l : List Buf)  -- `char **`: the blocks the pointers designate
+  | ref (addr : Nat) (a : List Int)  -- a C pointer / Fortran pointer: address and the elements found there
   | null
   deriving Repr, DecidableEq
 
@@ -190,6 +265,34 @@ def St.buf (s : St) (v : Nat) : Option Buf :=
   match s.get v with
   | some (.buf b) => some b
   | _ => none
+
+def St.ctx (s : St) (v : Nat) : Option Ctx :=
+  match s.get v with
+  | some (.ctx c) => some c
+  | _ => none
+
+def St.vec (s : St) (v : Nat) : Option (List Int) :=
+  match s.get v with
+  | some (.vec l) => some l
+  | _ => none
+
+/-- the declared dimensions of the argument / result (format fields `f_array_allocate`,
+    `c_var_dimension`, `c_array_shape`, `c_array_size`), held under variable 14 -/
+def St.shape (s : St) : Option (List Nat) :=
+  match s.get 14 with
+  | some (.arr a) => some (a.map Int.toNat)
+  | _ => none
+
+def prod (l : List Nat) : Nat := l.foldl (· * ·) 1
+
+/-- `ShroudCopyArray(ctx, c_var, c_var_size)` on elements: `n = min(c_var_size, ctx->size)` elements
+    are copied from `addr.base` (Capsule.copyArray with one byte per element) -/
+def copyElems (c : Ctx) (dest : List Int) : Res (List Int) :=
+  let n := if dest.length < c.size then dest.length else c.size
+  if n = 0 then .ok dest else
+  match c.base with
+  | some l => if n ≤ l.length then .ok (l.take n ++ dest.drop n) else .oob
+  | none => .oob
 
 def liftBuf (s : St) (d : Nat) : Res Buf → Res St
   | .ok b => .ok (s.set d (.buf b))
@@ -256,6 +359,108 @@ def execOp (o : Op) (s : St) : Res St :=
       | .ok k => .ok (s.set d (.int k))
       | .oob => .oob
     | _, _ => .oob
+  | .mkVector d src src2 n =>
+    match s.get src, s.nat n with
+    | some (.arr a), some n => if src == src2 ∧ n ≤ a.length then .ok (s.set d (.vec (a.take n))) else .oob
+    | _, _ => .oob
+  | .newVector d => .ok { (s.set d (.vec [])) with heap := s.heap + 1 }
+  | .newVectorFrom d src src2 n =>
+    match s.get src, s.nat n with
+    | some (.arr a), some n =>
+      if src == src2 ∧ n ≤ a.length then .ok { (s.set d (.vec (a.take n))) with heap := s.heap + 1 } else .oob
+    | _, _ => .oob
+  | .ctxCxxVar c v =>
+    match s.ctx c, s.vec v with
+    | some x, some l => .ok (s.set c (.ctx { x with owner := some l }))
+    | _, _ => .oob
+  | .ctxIdtor c => match s.ctx c with
+    | some x => .ok (s.set c (.ctx { x with idtor := true }))
+    | none => .oob
+  | .ctxBaseVec c v v2 =>
+    match s.ctx c, s.vec v with
+    | some x, some l => if v == v2 then .ok (s.set c (.ctx { x with base := if l.isEmpty then none else some l, addr := 0 })) else .oob
+    | _, _ => .oob
+  | .ctxType c => match s.ctx c with
+    | some x => .ok (s.set c (.ctx { x with typ := true }))
+    | none => .oob
+  | .ctxElemLen c => match s.ctx c with
+    | some x => .ok (s.set c (.ctx { x with elemLen := true }))
+    | none => .oob
+  | .ctxSizeVec c v =>
+    match s.ctx c, s.vec v with
+    | some x, some l => .ok (s.set c (.ctx { x with size := l.length }))
+    | _, _ => .oob
+  | .ctxRank1 c => match s.ctx c with
+    | some x => .ok (s.set c (.ctx { x with rank := 1 }))
+    | none => .oob
+  | .ctxShape0 c c2 => match s.ctx c with
+    | some x => if c == c2 then .ok (s.set c (.ctx { x with shape := [x.size] })) else .oob
+    | none => .oob
+  | .ctxCxxPtr c => match s.ctx c with
+    | some x => .ok (s.set c (.ctx { x with ownerPtr := true }))
+    | none => .oob
+  | .ctxBasePtr c v =>
+    match s.ctx c, s.get v with
+    | some x, some (.ref ad a) => .ok (s.set c (.ctx { x with base := some a, addr := ad }))
+    | some x, some .null => .ok (s.set c (.ctx { x with base := none, addr := 0 }))
+    | _, _ => .oob
+  | .ctxRankShape c =>
+    match s.ctx c, s.shape with
+    | some x, some sh => .ok (s.set c (.ctx { x with rank := sh.length, shape := sh }))
+    | _, _ => .oob
+  | .ctxSizeExpr c =>
+    match s.ctx c, s.shape with
+    | some x, some sh => .ok (s.set c (.ctx { x with size := prod sh }))
+    | _, _ => .oob
+  | .copyArrayF c f f2 =>
+    match s.ctx c, s.get f with
+    | some x, some (.arr d) =>
+      if f == f2 then
+        match copyElems x d with
+        | .ok r =>
+          -- `<C_memory_dtor_function>(&data->cxx)`: the owned vector is deleted
+          (match x.owner with
+            | some _ => if s.heap = 0 then .oob else
+                .ok { ((s.set f (.arr r)).set c (.ctx { x with owner := none })) with heap := s.heap - 1 }
+            | none => .ok (s.set f (.arr r)))
+        | .oob => .oob
+      else .oob
+    | _, _ => .oob
+  | .allocCtxSize f c => match s.ctx c with
+    | some x => .ok (s.set f (.arr (List.replicate x.size 0)))
+    | none => .oob
+  | .deallocIf f f2 => if f == f2 then .ok (s.set f (.arr [])) else .oob
+  | .allocShape f => match s.shape with
+    | some sh => .ok (s.set f (.arr (List.replicate (prod sh) 0)))
+    | none => .oob
+  | .cfPointerCtx c f => match s.ctx c with
+    | some x => match x.base with
+      | some l => if prod x.shape ≤ l.length then .ok (s.set f (.ref x.addr (l.take (prod x.shape)))) else .oob
+      | none => .oob
+    | none => .oob
+  | .cfPointerRes p r =>
+    match s.get p with
+    | some (.ref ad a) =>
+      let n := match s.ctx 5 with | some x => prod x.shape | none => 1
+      if n ≤ a.length then .ok (s.set r (.ref ad (a.take n))) else .oob
+    | _ => .oob
+  | .declPtr d => .ok (s.set d .null)
+  | .strArrayAlloc d src n l =>
+    match s.get src, s.nat n, s.nat l with
+    | some (.carr _ _ b), some n, some l =>
+      match strArrayAlloc b n l with
+      | .ok blocks => .ok { (s.set d (.ptrs blocks)) with heap := s.heap + blocks.length + 1 }
+      | .oob => .oob
+    | _, _, _ => .oob
+  | .strArrayFree v n =>
+    match s.get v, s.nat n with
+    | some (.ptrs blocks), some n =>
+      match strArrayFree blocks n with
+      | .ok rest =>
+        let freed := blocks.length - rest.length + 1
+        if s.heap < freed then .oob else .ok { (s.set v .null) with heap := s.heap - freed }
+      | .oob => .oob
+    | _, _ => .oob
   | .ifEmpty _ | .else_ | .endIf => .ok s
   | .opaque _ => .oob
 
@@ -296,13 +501,20 @@ structure CSpec where
   deriving Repr, DecidableEq
 
 def Row.fspec (r : Row) : FSpec := ⟨r.fLocal, (r.clause 1).map Op.ofRaw, (r.clause 2).map Op.ofRaw⟩
+/-- an explicit `arg_call` (`&{cxx_var}` / `{cxx_var}`) also makes `cxx_var` the variable handed to
+    the library: local-variable code 3; an `arg_call` of another form: 9 (nothing is handed over) -/
 def Row.cspec (r : Row) (cfi : Bool) : CSpec :=
-  ⟨r.bufArgs, r.cxxLocal, cfi, (r.clause 1).map Op.ofRaw, (r.clause 2).map Op.ofRaw⟩
+  let cl : Nat := match r.clause 6 with
+    | [] => r.cxxLocal
+    | [(_, [6])] => 3
+    | _ => 9
+  ⟨r.bufArgs, cl, cfi, (r.clause 1).map Op.ofRaw, (r.clause 2).map Op.ofRaw⟩
 
 /-- Fortran side at entry: `f_var` holds the actual; without `c_local_var` the name `c_var` IS `f_var` -/
 def fInit (F : FSpec) (actual : Val) : St :=
-  if F.cLocal then ⟨[(0, actual), (1, .null)], [], 0, 0⟩   -- the local `SH_<name>` starts undefined
-  else ⟨[(0, actual)], [(1, 0)], 0, 0⟩
+  -- `F_result` (8) names the result variable, which is `f_var` in a result block
+  if F.cLocal then ⟨[(0, actual), (1, .null)], [(8, 0)], 0, 0⟩   -- the local `SH_<name>` starts undefined
+  else ⟨[(0, actual)], [(1, 0), (8, 0)], 0, 0⟩
 
 /-- where the C wrapper finds the caller's storage: the parameter `c_var`, or the descriptor -/
 def CSpec.storage (C : CSpec) : Nat := if C.cfi then 10 else 1
@@ -321,6 +533,7 @@ def bindArg (C : CSpec) (fs : St) (cs : St) (b : Nat) : Res St :=
   else if b == 3 then
     match fs.get 0 with
     | some (.buf t) => .ok (cs.set 2 (.int t.length))             -- len(f_var, kind=C_INT)
+    | some (.carr _ l _) => .ok (cs.set 2 (.int l))
     | _ => .oob
   else if b == 4 then
     match fs.get 0 with
@@ -332,7 +545,11 @@ def bindArg (C : CSpec) (fs : St) (cs : St) (b : Nat) : Res St :=
   else if b == 5 then
     match fs.get 0 with
     | some (.arr a) => .ok (cs.set 4 (.int a.length))               -- size(f_var, kind=C_LONG)
+    | some (.carr n _ _) => .ok (cs.set 4 (.int n))
     | _ => .oob
+  else if b == 6 then
+    -- `type(<lib>_SHROUD_array) :: D<name>`: a local of the Fortran wrapper passed by reference
+    .ok (cs.set 5 (.ctx Ctx.empty))
   else .oob
 
 def bindAll (C : CSpec) (fs : St) : List Nat → St → Res St
@@ -343,10 +560,14 @@ def bindAll (C : CSpec) (fs : St) : List Nat → St → Res St
     | .oob => .oob
 
 def boundary (C : CSpec) (fs : St) : Res St :=
-  bindAll C fs (if C.bufArgs.isEmpty then [1] else C.bufArgs) ⟨[], [], 0, 0⟩
+  -- the declared dimensions are format fields on both sides
+  let cs0 : St := match fs.get 14 with
+    | some v => ⟨[(14, v)], [], 0, 0⟩
+    | none => ⟨[], [], 0, 0⟩
+  bindAll C fs (if C.bufArgs.isEmpty then [1] else C.bufArgs) cs0
 
 /-- the variable handed to the library (`C_call_list`): the C++ local when the entry declares one -/
-def CSpec.callVar (C : CSpec) : Nat := if C.cxxLocal == 0 then C.storage else 6
+def CSpec.callVar (C : CSpec) : Nat := if C.cxxLocal == 0 then C.storage else if C.cxxLocal == 9 then 99 else 6
 
 /-- how the library takes part: it receives the value of an argument and may leave another one
     in its place (`lib`), or it returns the value `ret` which the wrapper holds in `cxx_var` -/
@@ -364,9 +585,14 @@ structure Outcome where
   deriving Repr, DecidableEq
 
 /-- the whole trip of one argument.  `byRef`: the C parameter designates the caller's storage
-    (pointer, reference, character buffer, array); by-value arguments are not copied back. -/
-def runArg (F : FSpec) (C : CSpec) (byRef : Bool) (actual : Val) (call : Call) : Res Outcome :=
-  (run F.pre (fInit F actual)).bind fun fs =>
+    (pointer, reference, character buffer, array); by-value arguments are not copied back.
+    `env`: extra format fields of the argument (14 = its declared dimensions).  The context
+    struct (variable 5) is a local of the Fortran wrapper passed by reference, so what the C wrapper
+    stored in it is what the Fortran post_call reads; a returned pointer is `F_pointer` (7). -/
+def runArgWith (env : List (Nat × Val)) (F : FSpec) (C : CSpec) (byRef : Bool) (actual : Val) (call : Call) :
+    Res Outcome :=
+  let fs0 := env.foldl (fun (st : St) kv => st.set kv.1 kv.2) (fInit F actual)
+  (run F.pre fs0).bind fun fs =>
   (boundary C fs).bind fun cs =>
   (run C.pre cs).bind fun cs =>
   (match call with
@@ -382,10 +608,19 @@ def runArg (F : FSpec) (C : CSpec) (byRef : Bool) (actual : Val) (call : Call) :
       | some v => Res.ok (fs.set 1 v)
       | none => Res.oob
     else Res.ok fs).bind fun fs =>
-  (run F.post fs).bind fun fs =>
+  let fs := match cs.get 5 with
+    | some v => fs.set 5 v
+    | none => fs
+  let fs := match call with
+    | .result ret => fs.set 7 ret
+    | .arg _ => fs
+  (run F.post { fs with heap := cs.heap }).bind fun fs =>
   match fs.get 0 with
-  | some v => .ok ⟨rcv, v, cs.heap⟩
+  | some v => .ok ⟨rcv, v, fs.heap⟩
   | none => .oob
+
+def runArg (F : FSpec) (C : CSpec) (byRef : Bool) (actual : Val) (call : Call) : Res Outcome :=
+  runArgWith [] F C byRef actual call
 
 /-- `ftrim_char_in` branch of wrap_function_impl: the actual is the expression
     `trim(x)//C_NULL_CHAR`; the plain C wrapper hands the pointer on -/
